@@ -148,6 +148,8 @@ class Scope(ast.NodeVisitor):
                 self.site("mutator-global", node)
         if isinstance(f, ast.Attribute) and f.attr in FOREIGN_MUTATORS and self.stack:
             self.site("foreign-global-state", node)   # process-wide state of NumPy / warnings / random / sys changed from inside a function
+        if isinstance(f, ast.Name) and f.id in ("getrefcount", "id") and self.stack and f.id == "getrefcount":
+            self.site("foreign-global-state", node)   # behaviour made to depend on interpreter-internal reference counts
         if isinstance(f, ast.Name) and f.id == "next" and self.stack and node.args:
             r = self.root(node.args[0])
             if r in ("self", "cls") or (r is not None and not self.is_local(r)):
@@ -159,7 +161,7 @@ class Scope(ast.NodeVisitor):
         self.generic_visit(node)
 
 
-FOREIGN_MUTATORS = {"seterr", "seterrcall", "setbufsize", "set_printoptions", "seed", "set_state", "simplefilter", "filterwarnings", "resetwarnings", "setrecursionlimit",
+FOREIGN_MUTATORS = {"getrefcount", "get_referrers", "get_referents", "collect", "seterr", "seterrcall", "setbufsize", "set_printoptions", "seed", "set_state", "simplefilter", "filterwarnings", "resetwarnings", "setrecursionlimit",
                     "setswitchinterval", "putenv", "set_string_function", "setdefaultencoding"}
 KNOWN_STATE = {"primitive_vjps", "primitive_jvps", "notrace_primitives", "Box", "VSpace", "box_type_mappings", "box_types", "sparse_object_types", "nograd_functions",
                "trace_stack", "ArrayBox", "SequenceBox", "DictBox"}
